@@ -38,7 +38,15 @@ def stale_state_rule(chk, rule, call, snapshot, file, func, models=None):
         for ename, edit in edits():
             c = mk()
             try:
-                call(c)
+                first = call(c)
+                # results are the caller's: damage the first one - a later call must not hand it (or a part of it) out again
+                for part in (first if isinstance(first, (tuple, list)) else [first]):
+                    if isinstance(part, RefCircuit) and part is not c:
+                        for n_ in list(part.nodes())[::2]:
+                            part.graph.remove_node(n_)
+                        part.blackboxes.clear()
+                    elif isinstance(part, dict):
+                        part.clear()
                 what = edit(c)
                 if what is None:
                     continue
